@@ -1021,8 +1021,9 @@ fn nested_batch() -> Batch {
 /// the next allocation of that size) and joined at once while it still works for 3 ms.
 fn reuse_batch(k: u8) -> Batch {
     let mut specs = Vec::new();
-    for (n, ty) in [2u8, 0, 8].into_iter().enumerate() {
-        let mut a = sp(ty, false, DISP_DROP_LATER, true, Delay::Spin(2_000), Delay::None, 16, 0x4e00 + 2 * n as u64);
+    // (the last pair: A panics instead of returning - the panic path has an epilogue of its own)
+    for (n, (ty, a_panics)) in [(2u8, false), (0, false), (8, false), (0, true)].into_iter().enumerate() {
+        let mut a = sp(ty, a_panics, DISP_DROP_LATER, true, Delay::Spin(2_000), Delay::None, 16, 0x4e00 + 2 * n as u64);
         a.stall_ns = 600_000;
         a.stall_k = k;
         a.reuse = true;
@@ -1039,8 +1040,8 @@ fn reuse_batch(k: u8) -> Batch {
 /// back, before A is gone - and joined at once while it still works for 3 ms.
 fn reuse_batch_dropped_first(k: u8) -> Batch {
     let mut specs = Vec::new();
-    for (n, ty) in [2u8, 0, 8].into_iter().enumerate() {
-        let mut a = sp(ty, false, DISP_DROP_NOW, true, Delay::Sleep(400_000), Delay::None, 16, 0x4f00 + 2 * n as u64);
+    for (n, (ty, a_panics)) in [(2u8, false), (0, false), (8, false), (0, true)].into_iter().enumerate() {
+        let mut a = sp(ty, a_panics, DISP_DROP_NOW, true, Delay::Sleep(400_000), Delay::None, 16, 0x4f00 + 2 * n as u64);
         a.stall_ns = 600_000;
         a.stall_k = k;
         a.reuse = true;
